@@ -154,6 +154,10 @@ func (m *machine) tryIntrinsic(th *thread, caller *frame, fn *ssa.Function, args
 		if strings.HasPrefix(fn.Name(), "runtime_") && fn.Blocks == nil {
 			return zeroResult(m, fn), true
 		}
+	case "crypto/internal/boring", "crypto/internal/boring/sig":
+		if fn.Blocks == nil || fn.Name() == "Unreachable" || fn.Name() == "UnreachableExceptTests" {
+			return zeroResult(m, fn), true
+		}
 	case "internal/race", "internal/msan", "internal/asan":
 		return zeroResult(m, fn), true
 	case "internal/godebug":
@@ -566,6 +570,14 @@ func init() {
 		},
 		"internal/reflectlite.TypeOf": func(th *thread, caller *frame, fn *ssa.Function, args []value, site ssa.Instruction) value {
 			return iface{t: th.m.rtypeType, v: "rtype"}
+		},
+		// crypto/sha1: the assembly block function is replaced by the portable Go one
+		"crypto/sha1.block": func(th *thread, caller *frame, fn *ssa.Function, args []value, site ssa.Instruction) value {
+			g := fn.Pkg.Func("blockGeneric")
+			if g == nil {
+				panic(pathEnd{kind: endUnsupported, msg: "crypto/sha1.blockGeneric not found"})
+			}
+			return th.call(caller, g, args, site)
 		},
 		"os.Exit": func(th *thread, caller *frame, fn *ssa.Function, args []value, site ssa.Instruction) value {
 			th.m.violation("os-exit", "os.Exit called at "+th.m.curPos())
